@@ -4,6 +4,7 @@ against PewModel/Thermo.lean (mechanisms `readRows`, `readCols`, `readParams`, `
 specification `specImg`, `specParams`/`specScantime`, `otherFile`/`specSniffOther`).  Both layouts are written from one
 acquisition; every specification value comes from the driver (computed from the acquisition, never from a reader).
 Texts outside the export format (kind "text") are compared with the model only.
+A '#' is data everywhere (the readers call np.genfromtxt with comments=None since e68affa; corpus fixed-e68affa-*.json).
 """
 import logging
 import math
